@@ -953,5 +953,13 @@ V('C12', 'requirements-collected-in-lists', 'fire', 'C12.R7', 'the requirement v
 V('C05', 'suggested-init-memoised-per-configuration', 'fire', 'C05.R1', 'suggested_init memoised per configuration object',
   ('src/pyhf/pdf.py', 'import copy\nimport logging\n', 'import copy\nimport functools\nimport logging\n'),
   ('src/pyhf/pdf.py', '    def suggested_init(self):\n', '    @functools.lru_cache(maxsize=None)\n    def suggested_init(self):\n'))
+V('C01', 'main-pdf-remembered-by-parameter-identity', 'fire', 'C01.R12', 'the main model keeps the pdf built for the last parameter tensor OBJECT',
+  ('src/pyhf/pdf.py', '        lambdas_data = self.expected_data(pars)\n        return prob.Independent(prob.Poisson(lambdas_data))\n', "        if getattr(self, '_pdf', None) is None or pars is not self._pdf_pars:\n            lambdas_data = self.expected_data(pars)\n            self._pdf = prob.Independent(prob.Poisson(lambdas_data))\n            self._pdf_pars = pars\n        return self._pdf\n"))
+V('C02', 'staterror-auxdata-falls-back-to-inits', 'fire', 'C02.R7', 'staterror no longer declares its auxiliary data; the normal-constrained set falls back to the (overridable) initial values',
+  ('src/pyhf/modifiers/staterror.py', "        'auxdata': (1.0,) * n_parameters,\n", ''),
+  ('src/pyhf/parameters/paramsets.py', "        self.pdf_type = 'normal'\n        self.auxdata = kwargs.pop('auxdata')\n", "        self.pdf_type = 'normal'\n        self.auxdata = kwargs.pop('auxdata', None) or list(kwargs.get('inits', []))\n"))
+V('C02', 'staterror-auxdata-falls-back-to-ones', 'silent', '', 'staterror no longer declares its auxiliary data; the normal-constrained set falls back to ones',
+  ('src/pyhf/modifiers/staterror.py', "        'auxdata': (1.0,) * n_parameters,\n", ''),
+  ('src/pyhf/parameters/paramsets.py', "        self.pdf_type = 'normal'\n        self.auxdata = kwargs.pop('auxdata')\n", "        self.pdf_type = 'normal'\n        self.auxdata = kwargs.pop('auxdata', None) or [1.0] * kwargs.get('n_parameters', 1)\n"))
 V("C13", "code4-exponent-mask-strict", "fire", "C13.R3", "code 4 takes exponent 1 (a constant) exactly at |alpha| = alpha0",
   ("src/pyhf/interpolators/code4.py", "            exponents >= self.__alpha0, exponents, self.ones", "            exponents > self.__alpha0, exponents, self.ones"))
